@@ -336,6 +336,10 @@ extern void build_debug_domain(char *dbg_domain_str);
 extern void mcount_rstack_restore(struct mcount_thread_data *mtdp);
 extern void mcount_rstack_rehook(struct mcount_thread_data *mtdp);
 extern void mcount_plthook_rearm(struct mcount_thread_data *mtdp, struct mcount_ret_stack *rstack);
+/* pid of the process that called vfork() while its child runs on its memory */
+extern int mcount_vfork_parent;
+extern void mcount_restore_vfork(struct mcount_thread_data *mtdp);
+
 extern void mcount_rstack_rehook_exception(struct mcount_thread_data *mtdp,
 					   unsigned long frame_addr);
 extern void mcount_auto_restore(struct mcount_thread_data *mtdp);
